@@ -1,36 +1,44 @@
 /-
   `driver`: reads one JSON object per line on stdin, writes `id<TAB>result` per line on stdout.
   Links only the core-only library `CedarGo`.
+  `{"op":"defenv","name":k,"env":…}` stores an environment; later lines may say `"envref":k`.
 -/
 import CedarGo.Driver.Ops.Core
 open Lean CedarGo CedarGo.Driver
 
-def allOps : List (String × (Json → D String)) := coreOps
+def allOps : List (String × Handler) := coreOps
 
-def handleLine (line : String) : String :=
+def handleLine (envs : Envs) (line : String) : Envs × String :=
   match Json.parse line with
-  | .error e => s!"?\tprotocol-error {e}"
+  | .error e => (envs, s!"?\tprotocol-error {e}")
   | .ok j =>
     let id := match j.getObjVal? "id" with | .ok (.num n) => toString n.mantissa | .ok (.str s) => s | _ => "?"
     match j.getObjVal? "op" with
+    | .ok (.str "defenv") =>
+      (match j.getObjVal? "name", (field j "env").bind decEnv with
+       | .ok (.str k), .ok env => (envs.insert k env, s!"{id}\tdefined")
+       | _, .error e => (envs, s!"{id}\tskip {e}")
+       | _, _ => (envs, s!"{id}\tprotocol-error defenv"))
     | .ok (.str op) =>
       match allOps.lookup op with
       | some h =>
-        match h j with
-        | .ok s => s!"{id}\t{s}"
-        | .error e => s!"{id}\tskip {e}"
-      | none => s!"{id}\tskip unknown-op {op}"
-    | _ => s!"{id}\tprotocol-error no-op"
+        match h envs j with
+        | .ok s => (envs, s!"{id}\t{s}")
+        | .error e => (envs, s!"{id}\tskip {e}")
+      | none => (envs, s!"{id}\tskip unknown-op {op}")
+    | _ => (envs, s!"{id}\tprotocol-error no-op")
 
-partial def loop (hin : IO.FS.Stream) (hout : IO.FS.Stream) : IO Unit := do
+partial def loop (hin : IO.FS.Stream) (hout : IO.FS.Stream) (envs : Envs) : IO Unit := do
   let line ← hin.getLine
   if line.isEmpty then return ()
   let l := line.trimAsciiEnd.toString
-  if !l.isEmpty then hout.putStrLn (handleLine l)
-  loop hin hout
+  if l.isEmpty then loop hin hout envs else
+  let (envs, out) := handleLine envs l
+  hout.putStrLn out
+  loop hin hout envs
 
 def main : IO Unit := do
   let hin ← IO.getStdin
   let hout ← IO.getStdout
-  loop hin hout
+  loop hin hout {}
   hout.flush
